@@ -269,7 +269,9 @@ struct Node
 	int owner = -1;       // scoped remover responsible, -1 none
 	std::set<int> limbo;  // removers involved in a move assignment that displaced this listener
 	bool inLimbo = false;
+	int throwAt = 0;      // C16: the listener leaves its k-th invocation by an exception (0 = never)
 };
+struct ListenerThrow {};
 struct MRemover
 {
 	bool alive = false;
@@ -298,7 +300,7 @@ struct Interp
 	bool c16 = false;
 	int pendingCond = -1;
 	bool condBothForms = false;
-	bool selfMoveAssign = false, condIntResult = false;
+	bool selfMoveAssign = false, removeDetachedInsideTrigger = false, listenerThrew = false, condIntResult = false;
 
 	bool moveAssignBothOwn = false, bothGoneAfter = false, nontrivCounter = false, reentrant = false, condTrueNested = false, otherPresent = false;
 	std::set<std::pair<int, int> > maPairs;
@@ -446,6 +448,7 @@ struct Interp
 				static const int special[] = { INT_MIN, -5, -1, 0, 1, 2, 3, 7, INT_MAX };
 				int n = (op.a >> 1) % 12 < 9 ? special[(op.a >> 1) % 12 < 0 ? 0 : (op.a >> 1) % 12] : ((op.a >> 5) % 9);
 				nodes[node].kind = N_COUNTER; nodes[node].n = n;
+				if(depth == 0 && ((op.a >> 9) & 3) >= 2) nodes[node].throwAt = ((op.a >> 9) & 3) - 1;
 				if(n <= 0 || n >= 2) nontrivCounter = true;
 				lib->addCounter(obj, key, how, before, nodes[node].cb, n);
 				log << "(n" << node << " count " << n << ")";
@@ -453,6 +456,7 @@ struct Interp
 			else {
 				nodes[node].kind = N_COND; nodes[node].condBits = op.a >> 2; nodes[node].condWithArg = (op.a & 2) != 0;
 				const int top2 = (op.a >> 6) & 3;
+				if(depth == 0 && ((op.a >> 8) & 3) >= 2) nodes[node].throwAt = ((op.a >> 8) & 3) - 1;
 				lib->addCond(obj, key, how, before, nodes[node].cb, nodes[node].condWithArg ? (top2 >= 2 ? 2 : top2 == 1 ? 3 : 1) : 0);
 				if(nodes[node].condWithArg && top2 >= 2) condBothForms = true;
 				if(nodes[node].condWithArg && top2 == 1) condIntResult = true;
@@ -476,6 +480,7 @@ struct Interp
 				nodes[h].owner = -1;
 				rm[s].owned.erase(std::find(rm[s].owned.begin(), rm[s].owned.end(), h));
 			}
+			if(! frames.empty() && ! attached && std::find(rm[s].owned.begin(), rm[s].owned.end(), h) != rm[s].owned.end()) removeDetachedInsideTrigger = true;
 			bool r = lib->rmRemove(s, key, h);
 			log << "(r" << s << ",h" << h << ")=" << r;
 			if(r != expect) fail("remover.remove.result", "C15", "remove through the remover returned " + std::to_string(r) + ", model says " + std::to_string(expect));
@@ -573,9 +578,17 @@ struct Interp
 			if(lists[obj][key].nodes.size() >= 2) otherPresent = true;
 			frames.push_back(f);
 			log << "(o" << obj << "k" << key << "){";
-			lib->trigger(obj, key, op.b, queued);
+			bool thrown = false;
+			if(frames.size() == 1) {
+				// a listener may leave by an exception (C16 programs): the trigger is over, whatever was not called stays uncalled,
+				// and the invocation that threw counts as an invocation
+				const size_t base = frames.size();
+				try { lib->trigger(obj, key, op.b, queued); }
+				catch(const ListenerThrow &) { thrown = true; listenerThrew = true; frames.resize(base); log << " !threw"; }
+			}
+			else lib->trigger(obj, key, op.b, queued);
 			log << "}";
-			if(! failed) {
+			if(! failed && ! thrown) {
 				TFrame & fr = frames.back();
 				int due = dueNode(fr);
 				if(due >= 0) fail("remover.trigger.missed", prop, "trigger returned without calling listener n" + std::to_string(due));
@@ -655,13 +668,14 @@ struct Interp
 		}
 		log << " >n" << cb;
 	}
-	void onListenerBody(int cb) {
-		if(failed) return;
+	bool onListenerBody(int cb) {
+		if(failed) return false;
 		if(--fuel > 0) {
 			const std::vector<Op> * body = bodies[cb];
 			if(body && ! body->empty()) exec(*body, (int)frames.size(), cb);
 		}
 		log << " <";
+		return ! failed && nodes[cb].throwAt > 0 && nodes[cb].triggers == nodes[cb].throwAt;
 	}
 
 	// after every top-level op: what is attached, in order (limbo listeners may or may not be)
@@ -739,8 +753,12 @@ void deliverListener(int cb, int arg)
 	// the model does the same before the listener may throw (C09)
 	{ FaultPause fp, fp2; if(g_r) g_r->onListener(cb, arg); }
 	faults().point(1);
-	FaultPause fp, fp2;
-	if(g_r) g_r->onListenerBody(cb);
+	bool leaveByException = false;
+	{
+		FaultPause fp, fp2;
+		if(g_r) leaveByException = g_r->onListenerBody(cb);
+	}
+	if(leaveByException) throw ListenerThrow();
 }
 bool deliverCondition(int cb, int arg, bool hasArg)
 {
@@ -753,6 +771,7 @@ Grammar makeGrammar(const std::string & prop)
 {
 	Grammar g;
 	const bool c16 = prop == "C16";
+	const bool nested = prop == "C15";
 	g.params = { ArgSpec(0, 5), ArgSpec(0, 0) };
 	g.maxDepth = 3;
 	g.maxTotalOps = 120;
@@ -763,8 +782,10 @@ Grammar makeGrammar(const std::string & prop)
 	if(! c16) {
 		top.kinds = {
 			{ R_NEW, "newRemover", 10, rmv, ArgSpec(0, 2, 1, 2, 70), ArgSpec(0, 0), -1, 0 },
-			{ R_ADD, "addThroughRemover", 24, rmv, ArgSpec(0, 2), ArgSpec(0, 80), -1, 0 },
-			{ R_ADD_DIRECT, "addDirect", 6, ArgSpec(0, 1), ArgSpec(0, 2), ArgSpec(0, 80), -1, 0 },
+			// C15: listeners carry scripts (below), so removers are also used from inside a running dispatch, where a listener
+			// detached directly is still kept alive by the traversal and its handle has not expired yet
+			{ R_ADD, "addThroughRemover", 24, rmv, ArgSpec(0, 2), ArgSpec(0, 80), nested ? 1 : -1, nested ? 3 : 0 },
+			{ R_ADD_DIRECT, "addDirect", 6, ArgSpec(0, 1), ArgSpec(0, 2), ArgSpec(0, 80), nested ? 1 : -1, nested ? 3 : 0 },
 			{ R_REMOVE, "removeThroughRemover", 8, rmv, H, ArgSpec(0, 0), -1, 0 },
 			{ R_REMOVE_DIRECT, "removeDirect", 3, ArgSpec(0, 0), H, ArgSpec(0, 0), -1, 0 },
 			{ R_RESET, "reset", 3, rmv, ArgSpec(0, 0), ArgSpec(0, 0), -1, 0 },
@@ -779,7 +800,7 @@ Grammar makeGrammar(const std::string & prop)
 	else {
 		top.kinds = {
 			{ R_ADD_COUNTER, "addCounter", 14, ArgSpec(0, 2000), ArgSpec(0, 2), ArgSpec(0, 80), 1, 3 },
-			{ R_ADD_COND, "addConditional", 12, ArgSpec(0, 255), ArgSpec(0, 2), ArgSpec(0, 80), 1, 3 },
+			{ R_ADD_COND, "addConditional", 12, ArgSpec(0, 1023), ArgSpec(0, 2), ArgSpec(0, 80), 1, 3 }, // bits 8-9: the listener throws on its 1st / 2nd call
 			{ R_ADD_DIRECT, "addDirect", 8, ArgSpec(0, 1), ArgSpec(0, 2), ArgSpec(0, 80), 1, 3 },
 			{ R_REMOVE_DIRECT, "removeDirect", 4, ArgSpec(0, 0), H, ArgSpec(0, 0), -1, 0 },
 			{ R_TRIGGER, "trigger", 30, ArgSpec(0, 1), any, ArgSpec(0, 3), -1, 0 },
@@ -796,6 +817,19 @@ Grammar makeGrammar(const std::string & prop)
 		return g;
 	}
 	g.levels.push_back(top);
+	if(nested) {
+		Level body;
+		const ArgSpec HS(0, 40, -4, -1, 50);
+		body.kinds = {
+			{ R_REMOVE, "removeThroughRemover", 6, rmv, HS, ArgSpec(0, 0), -1, 0 },
+			{ R_REMOVE_DIRECT, "removeDirect", 5, ArgSpec(0, 0), HS, ArgSpec(0, 0), -1, 0 },
+			{ R_ADD, "addThroughRemover", 3, rmv, ArgSpec(0, 2), ArgSpec(0, 80), -1, 0 },
+			{ R_ADD_DIRECT, "addDirect", 2, ArgSpec(0, 1), ArgSpec(0, 2), ArgSpec(0, 80), -1, 0 },
+			{ R_TRIGGER, "trigger", 4, ArgSpec(0, 1), any, ArgSpec(0, 3), -1, 0 },
+			{ R_RESET, "reset", 1, rmv, ArgSpec(0, 0), ArgSpec(0, 0), -1, 0 },
+		};
+		g.levels.push_back(body);
+	}
 	return g;
 }
 
@@ -832,6 +866,8 @@ Verdict runOnce(const Program & p, const std::string & prop, FaultPlan * plan)
 		cls(in.condBothForms, "condition_callable_with_and_without_arguments");
 		cls(in.condIntResult, "condition_returning_an_int");
 		cls(in.selfMoveAssign, "remover_move_assigned_from_itself");
+		cls(in.listenerThrew, "wrapped_listener_left_by_an_exception");
+		cls(in.removeDetachedInsideTrigger, "remover_asked_inside_a_trigger_for_a_listener_already_detached_directly");
 		cls(in.otherPresent, "other_listeners_present");
 		if(prop == "C15") v.nontrivial = in.moveAssignBothOwn;
 		else v.nontrivial = ((in.nontrivCounter && in.reentrant) || in.condTrueNested) && in.otherPresent;
